@@ -119,3 +119,111 @@ B("b14", ["C08", "C09", "C12"], VI,
   "            self.iteration += 1\n            new_values, conv = self._iteration_step()",
   "            self.iteration = self.iteration + 1\n            new_values, conv = self._iteration_step()",
   "counter increment spelled as an assignment")
+
+# =============================================================================== C09
+M("m46", "C09", "R9.1", RVI, "        self.gain = solver_state.info.gain\n", "", "RVI: gain not restored")
+M("m47", "C09", "R9.1", PVI, "        self.value_history = solver_state.info.value_history\n", "", "PVI: value_history not restored", survives="(yes)")
+M("m48", "C09", "R9.1", PVI, "        self.history_index = solver_state.info.history_index\n", "", "PVI: history_index not restored", survives="(yes)")
+M("m49", "C09", "R9.2", SAVI, "        self.batch_order = solver_state.info.batch_order\n", "        self.batch_order = solver_state.info.iteration\n",
+  "SAVI: batch_order restored from the iteration field")
+M("m49b", "C09", "R9.2", RVI, "        self.gain = solver_state.info.gain\n", "        self.gain = solver_state.info.iteration\n",
+  "RVI: gain restored from the iteration field")
+M2("m51", "C09", "R9.1", [
+    (VI, "        # Calculate convergence measure\n        conv = self._convergence_test_fn(new_values, self.values)\n\n        return new_values, conv",
+     "        # Calculate convergence measure\n        conv = self._convergence_test_fn(new_values, self.values)\n        self.momentum = 0.9 * self.momentum + conv\n\n        return new_values, conv", None),
+    (VI, "        self.conv_threshold = threshold_fn(self.epsilon, self.gamma)\n", "        self.conv_threshold = threshold_fn(self.epsilon, self.gamma)\n        self.momentum = 0.0\n", None)],
+   "VI gains a loop-carried attribute that is not checkpointed")
+for _i, (_f, _n) in enumerate([(RVI, "RVI"), (PVI, "PVI"), (PI, "PI"), (SAVI, "SAVI")]):
+    if _n == "PI":
+        M(f"m52{_n}", "C09", "R9.3", _f,
+          "            new_policy, n_changed = self._iteration_step()\n            self.policy = new_policy\n",
+          "            new_policy, n_changed = self._iteration_step()\n            if self.is_checkpointing_enabled and self.iteration % self.checkpoint_frequency == 0:\n                self.save(self.iteration)\n            self.policy = new_policy\n",
+          "PI: periodic save before the policy is stored")
+    else:
+        M(f"m52{_n}", "C09", "R9.3", _f,
+          "            new_values, conv = self._iteration_step()\n            self.values = new_values\n",
+          "            new_values, conv = self._iteration_step()\n            if self.is_checkpointing_enabled and self.iteration % self.checkpoint_frequency == 0:\n                self.save(self.iteration)\n            self.values = new_values\n",
+          f"{_n}: periodic save before the values are stored")
+M("m53", "C09", "R9.3", RVI, "                self.save(self.iteration)\n\n        if conv >= self.epsilon:",
+  "                self.save(self.iteration - 1)\n\n        if conv >= self.epsilon:", "RVI: periodic save labelled iteration - 1")
+M("m54", "C09", "R9.4", CKPT, "        # Get state to checkpoint\n        cp_state = self.solver_state\n",
+  "        # Get state to checkpoint\n        self.iteration = step\n        cp_state = self.solver_state\n", "save() writes the counter")
+M("m54b", "C09", "R9.5", CKPT, "        self.checkpoint_manager.save(step, args=checkpoint.args.StandardSave(cp_state))",
+  "        self.checkpoint_manager.save(step + 1, args=checkpoint.args.StandardSave(cp_state))", "save() relabels the step")
+M("m54c", "C09", "R9.3", SAVI, "            self.iteration += 1\n            new_values, conv = self._iteration_step()\n            self.values = new_values\n",
+  "            new_values, conv = self._iteration_step()\n            self.values = new_values\n            if self.is_checkpointing_enabled and self.iteration % self.checkpoint_frequency == 0:\n                self.save(self.iteration)\n            self.iteration += 1\n",
+  "SAVI: save before the increment")
+B("b07", ["C09", "C12", "C08"], VI,
+  "            if (\n                self.is_checkpointing_enabled\n                and self.iteration % self.checkpoint_frequency == 0\n            ):\n                self.save(self.iteration)\n\n        if conv >= self.conv_threshold:",
+  "            if (\n                self.is_checkpointing_enabled\n                and self.iteration % self.checkpoint_frequency == 0\n            ):\n                self._periodic_save()\n\n        if conv >= self.conv_threshold:",
+  "periodic save extracted into a helper (helper added below)")
+BENIGN[-1]["edits"] = [
+    dict(file=VI, old=BENIGN[-1].pop("old"), new=BENIGN[-1].pop("new"), nth=None),
+    dict(file=VI, old="    def _restore_state_from_checkpoint(self, solver_state: SolverState) -> None:",
+         new="    def _periodic_save(self) -> None:\n        self.save(self.iteration)\n\n    def _restore_state_from_checkpoint(self, solver_state: SolverState) -> None:", nth=None),
+]
+BENIGN[-1].pop("file"); BENIGN[-1].pop("nth")
+
+# =============================================================================== C10
+M("m50", "C10", "R10.2", PVI, "                history_index=self.history_index,\n                period=self.period,\n",
+  "                history_index=self.history_index,\n", "PVI solver_state omits period=", survives="(yes)")
+M("m64", "C10", "R10.1", PI, '_target_: str = "mdpax.solvers.policy_iteration.PolicyIteration"',
+  '_target_: str = "mdpax.solvers.policy_iteration.PolicyIter"', "PI _target_ typo")
+M2("m65", "C10", "R10.1", [
+    (SAVI, "    Config = SemiAsyncValueIterationConfig\n", "    Config = ValueIterationConfig\n", None),
+    (SAVI, "from mdpax.solvers.value_iteration import ValueIteration\n", "from mdpax.solvers.value_iteration import ValueIteration, ValueIterationConfig\n", None)],
+   "SAVI Config attribute points at another config class", survives="no")
+M("m65b", "C10", "R10.1", RVI, '_target_: str = "mdpax.solvers.relative_value_iteration.RelativeValueIteration"',
+  '_target_: str = "mdpax.solvers.value_iteration.ValueIteration"', "RVI config targets plain VI")
+M("m66", "C10", "R10.3", CKPT,
+  "        step = step or manager.latest_step()\n        if step is None:\n            raise ValueError(f\"No checkpoints found in {checkpoint_dir}\")\n",
+  "        step = step or manager.latest_step()\n", "restore(): the None check deleted")
+M("m67", "C10", "R10.3", CKPT, "        self._restore_state_from_checkpoint(cp_state)\n", "        pass\n",
+  "load_checkpoint: restored state never applied", survives="no")
+M("m68", "C10", "R10.4", CKPT, "            config.max_checkpoints = max_checkpoints\n", "            config.max_checkpoints = checkpoint_frequency\n",
+  "restore(): retention override takes the frequency", survives="no")
+M("m68b", "C10", "R10.4", CKPT, "            config.checkpoint_dir = new_checkpoint_dir\n", "            config.checkpoint_dir = checkpoint_dir\n",
+  "restore(): new directory override ignored")
+M("m68c", "C10", "R10.3", CKPT, "        template_cp_state = solver.solver_state\n        manager = cls._create_checkpoint_manager(checkpoint_dir, 1, True)",
+  "        template_cp_state = None\n        manager = cls._create_checkpoint_manager(checkpoint_dir, 1, True)", "restore(): no template")
+M("m68d", "C10", "R10.5", SOLVER, "                self.config.problem = problem.config\n", "                pass\n",
+  "problem config not recorded in solver config")
+M("m68e", "C10", "R10.3", CKPT,
+  "        if not config_path.exists():\n            raise FileNotFoundError(",
+  "        if False:\n            raise FileNotFoundError(", "restore(): missing-config check disabled")
+
+# =============================================================================== C12
+for _f, _n in [(PI, "PI"), (RVI, "RVI"), (PVI, "PVI"), (SAVI, "SAVI")]:
+    M(f"m55{_n}", "C12", "R12.2", _f,
+      "        # Final checkpoint if enabled\n        if self.is_checkpointing_enabled:\n            self.save(self.iteration)\n",
+      "", f"{_n}: final save deleted")
+M("m59", "C12", "R12.1", PI, "                and self.iteration % self.checkpoint_frequency == 0\n",
+  "                and self.iteration % self.checkpoint_frequency == 1\n", "PI: cadence off by one")
+M("m60", "C12", "R12.3", CKPT,
+  "            self.checkpoint_dir, max_checkpoints, enable_async_checkpointing\n",
+  "            self.checkpoint_dir, enable_async_checkpointing, max_checkpoints\n", "retention and async flag swapped positionally")
+M("m60b", "C12", "R12.3", CKPT, "            max_to_keep=max_checkpoints,\n", "            max_to_keep=None,\n", "retention never reaches Orbax")
+M("m60c", "C12", "R12.3", SAVI, "", "", "placeholder", survives="n/a")
+MUTANTS.pop()
+M("m60d", "C12", "R12.3", VI, "            max_checkpoints=self.config.max_checkpoints,\n", "            max_checkpoints=self.config.checkpoint_frequency,\n",
+  "solver passes the frequency as the retention limit")
+M("m61", "C12", "R12.4", CKPT,
+  "        # Early return if checkpointing not requested\n        if self.checkpoint_frequency == 0:\n            logger.info(\"Checkpointing not enabled\")\n            return\n",
+  "        if checkpoint_dir is not None:\n            Path(checkpoint_dir).mkdir(parents=True, exist_ok=True)\n        # Early return if checkpointing not requested\n        if self.checkpoint_frequency == 0:\n            logger.info(\"Checkpointing not enabled\")\n            return\n",
+  "directory created before the frequency-zero return")
+M("m62", "C12", "R12.5", CKPT, "        if self.has_full_config:\n            self._save_solver_config()\n            logger.info(",
+  "        self._save_solver_config()\n        if self.has_full_config:\n            logger.info(", "config.yaml written unconditionally")
+M("m63", "C12", "R12.6", CKPT, "        status = \"queued\" if self.enable_async_checkpointing else \"saved\"\n",
+  "        (self.checkpoint_dir / \"latest\").write_text(str(step))\n        status = \"queued\" if self.enable_async_checkpointing else \"saved\"\n",
+  "a second writer of the checkpoint directory")
+M("m63b", "C12", "R12.1", VI,
+  "            if (\n                self.is_checkpointing_enabled\n                and self.iteration % self.checkpoint_frequency == 0\n            ):\n                self.save(self.iteration)\n",
+  "            if self.is_checkpointing_enabled:\n                self.save(self.iteration)\n", "VI: saves every iteration regardless of frequency")
+M("m63c", "C12", "R12.2", VI,
+  "        # Final checkpoint if enabled\n        if self.is_checkpointing_enabled:\n            self.save(self.iteration)\n",
+  "        # Final checkpoint if enabled\n        if self.is_checkpointing_enabled and conv < self.conv_threshold:\n            self.save(self.iteration)\n",
+  "VI: final save only on convergence")
+B("b15", ["C12", "C09"], VI,
+  "        # Final checkpoint if enabled\n        if self.is_checkpointing_enabled:\n            self.save(self.iteration)\n",
+  "        # Final checkpoint (save() returns early when checkpointing is disabled)\n        self.save(self.iteration)\n",
+  "final save without the redundant guard")
